@@ -150,8 +150,9 @@ func runR19_7(c *Ctx, r *R) {
 }
 
 func runR20_6(c *Ctx, r *R) {
-	f := r.Need("mpx", "conn.addClosed")
+	f := listenerHost(c)
 	if f == nil {
+		r.Unk("mpx.conn/listener-id", 0, "anchor lost: no method of conn calls closedListeners.Set")
 		return
 	}
 	n := 0
@@ -172,6 +173,10 @@ func runR20_6(c *Ctx, r *R) {
 		for {
 			if cv, ok := id.(*ssa.Convert); ok {
 				id = cv.X
+				continue
+			}
+			if u := unspill(id); u != id {
+				id = u
 				continue
 			}
 			break
